@@ -44,6 +44,13 @@ OPTION_CHOICES = [
     ('energy.global_price', [0, 3.0e-8, 2.7777777e-8]),
     ('energy.global_efficiency', [None, 75.0, 66.666666]),
     ('energy.demand_charge', [None, 0.5, 0.1234567]),
+    ('user.scenario', ['baseline', 'fire flow']),
+    ('user.run_id', [7, 3.25]),
+    ('report.status', ['YES', 'FULL', 'NO']),
+    ('report.energy', ['YES', 'NO']),
+    ('report.pagesize', [None, 40]),
+    ('graphics.units', ['NONE', 'METERS']),
+    ('graphics.dimensions', [None, [0.0, 0.0, 1000.0, 1000.0]]),
 ]
 
 
